@@ -63,12 +63,17 @@ proof fn lemma_small_window_read(t: &RawTableInner, pos: int, b: int)
             assert(t.ctrl@[Group::WIDTH + j] == t.ctrl@[j]);
             lemma_width_multiple(t);
             // n is 4 or 8 and WIDTH is 8 or 16: (WIDTH + j) % n == j by constant arithmetic
+            let w = Group::WIDTH as int;
+            assert(w == 16 || w == 8);
             if n == 4 {
-                assert((Group::WIDTH + j) % 4 == j);
+                assert(w % 4 == 0);
+                assert((w + j) % 4 == j) by(nonlinear_arith) requires w % 4 == 0, 0 <= j < 4;
             } else {
                 assert(n == 8);
-                assert((Group::WIDTH + j) % 8 == j);
+                assert(w % 8 == 0);
+                assert((w + j) % 8 == j) by(nonlinear_arith) requires w % 8 == 0, 0 <= j < 8;
             }
+            assert((pos + b) % n == j);
         }
     }
 }
